@@ -46,12 +46,15 @@ static inline DimBasis ref_dim_basis(const std::vector<double> &k, int order, do
 	for (int i = lo; i <= hi; i++) { LD v, m; ref_bsp(k, i, order, b.piece, (LD)x, der, v, m); b.v.push_back(v); b.m.push_back(m); }
 	return b;
 }
-struct RefVal { LD S = 0, M = 0; size_t nterms = 0; };
+struct RefVal { LD S = 0, M = 0; size_t nterms = 0; LD maxbasis = 1; /* product over dimensions of the largest |basis value| */
+	// the float path holds basis values, partial products and the sum in floats: beyond this it legitimately overflows
+	bool float_range_ok() const { return M < 1e36L && maxbasis < 1e30L; } };
 // S = sum c * prod B ; M = sum |c| * prod |B|  over all stored coefficients (zero-basis terms skipped: they are exactly 0)
 static inline RefVal ref_eval(const Spec &s, const std::vector<DimBasis> &bs) {
 	int nd = s.ndim(); RefVal r;
 	std::vector<size_t> stride(nd); size_t st = 1;
 	for (int d = nd - 1; d >= 0; d--) { stride[d] = st; st *= (size_t)s.naxes(d); }
+	for (int d = 0; d < nd; d++) { LD mx = 0; for (LD q : bs[d].m) mx = std::max(mx, q); r.maxbasis *= std::max<LD>(mx, 1); } // only factors above one count: inf*0 is the hazard
 	for (int d = 0; d < nd; d++) if (bs[d].v.empty()) return r;
 	std::vector<size_t> idx(nd, 0);
 	while (true) {
